@@ -197,7 +197,10 @@ def toks_stmt(st, xp=None):
             if i:
                 out.append(T(",", "op"))
             out.append(T(p, "word"))
-        return out + [T(")", "op"), T("{", "op"), NL] + toks_stmts(st[3], xp) + [T("}", "op"), T("ফেরত", "word")] + semi
+        # ("func", name, params, body[, closing]): `closing` is the operand of the return written after the block
+        # (`} ফেরত e;`, the documented style); it is evaluated after the body block has ended, in the parameter scope
+        closing = E(st[4]) if len(st) > 4 and st[4] is not None else []
+        return out + [T(")", "op"), T("{", "op"), NL] + toks_stmts(st[3], xp) + [T("}", "op"), T("ফেরত", "word")] + closing + semi
     if k == "return":
         if st[1] is None:
             return [T("ফেরত", "word")] + semi
